@@ -358,7 +358,10 @@ def metadata_to_proto(metadata: Metadata) -> run_context_pb2.Metadata:
         for param in params:
             path = getattr(param, "path", None)
             idx = getattr(param, "idx", None)
-            device_parameters.append(run_context_pb2.DeviceParameter(path=path, idx=idx))
+            units = getattr(param, "units", None)
+            device_parameters.append(
+                run_context_pb2.DeviceParameter(path=path, idx=idx, units=units)
+            )
 
     return run_context_pb2.Metadata(
         device_parameters=device_parameters or None,  # If empty set this field as None.
@@ -373,7 +376,11 @@ def metadata_from_proto(metadata_pb: run_context_pb2.Metadata) -> Metadata:
     device_parameters: list[DeviceParameter] = []
     for param in metadata_pb.device_parameters:
         device_parameters.append(
-            DeviceParameter(path=param.path, idx=param.idx if param.HasField("idx") else None)
+            DeviceParameter(
+                path=param.path,
+                idx=param.idx if param.HasField("idx") else None,
+                units=param.units if param.HasField("units") else None,
+            )
         )
     return Metadata(
         device_parameters=device_parameters or None,
